@@ -17,8 +17,8 @@
 From Coq Require Import List Bool Arith String ZArith.
 Import ListNotations.
 From HV Require Import lib.Harness model.SerialHugr spec.SerialHugrS proofs.SerialHugrP.
-From HV Require Import model.Schema model.SchemaFast model.DocJson proofs.SchemaFastP proofs.DocJsonP
-  proofs.DocJsonSchemasP gen.Schemas.
+From HV Require Import model.Schema model.SchemaFast model.DocJson model.NodeParent proofs.SchemaFastP proofs.DocJsonP
+  proofs.NodeParentP proofs.DocJsonSchemasP gen.Schemas spec.DocJsonS proofs.DocJsonIndexP.
 Open Scope nat_scope.
 
 Section C03.
@@ -46,6 +46,18 @@ Section C03.
     guard_b vports sports has_order h = true -> to_serial enc ndp md_is_nil h = Some s ->
     s_edges s = map (expected_edge vports sports h) (h_links h).
   Proof. exact (serial_port_addressing op sop md enc ndp md_nil md_is_nil vports sports has_order ndp_spec). Qed.
+
+  (* the same index sanity read off the JSON TEXT of the document (spec/DocJsonS.v: what a reader of the text
+     sees, no serial records): `nodes` non-empty, node 0 has "parent": 0, every later node's "parent" is a smaller
+     position, the first component of both endpoints of every edge is a position below the node count *)
+  Variable op_fields : sop -> obj.
+  Variable md_fields : md -> obj.
+  Theorem C03_json_text_index_sane : forall (encoder : option string) (h : hugr op md) (s : serial sop md),
+    guard_b vports sports has_order h = true -> to_serial enc ndp md_is_nil h = Some s ->
+    json_index_sane (doc_json op_fields md_fields encoder s) = true.
+  Proof.
+    exact (model_json_index_sane op sop md enc ndp md_nil md_is_nil vports sports has_order ndp_spec op_fields md_fields).
+  Qed.
 
   (* serialization of a guarded HUGR does not fail *)
   Theorem C03_serialization_total : forall h : hugr op md,
@@ -80,10 +92,12 @@ Section C03Schema.
   (* every document Hugr._to_serial's model produces, written as JSON (version, nodes = operation object +
      parent, edges = [[n, o|null], [n, o|null]], metadata = array of object|null, encoder), validates against
      {"$ref": "#/$defs/SerialHugr"} of the published strict schema file as it is on disk now -- whatever the HUGR
-     (no guard needed: also after deletion and index reuse), provided the file's OpType accepts the operation
-     objects with every parent index (ops_valid; fuel f for them, f + 3 for the document) *)
+     (no guard needed: also after deletion and index reuse), provided the file's OpType accepts every operation
+     object written with parent 0 (ops_valid0; fuel f for them, f + 3 for the document).  That the verdict on an
+     operation object cannot depend on the parent index is proved from a certificate evaluated on the regenerated
+     file (proofs/NodeParentP.v parent_indep, strict_OpType_parent_cert). *)
   Theorem C03_model_document_schema_valid : forall (encoder : option string) (f : nat) (h : hugr op md) (s : serial sop md),
-    4 <= f -> ops_valid published_hugr_strict sop op_fields f ->
+    4 <= f -> ops_valid0 published_hugr_strict sop op_fields f ->
     to_serial enc ndp md_is_nil h = Some s ->
     accepts (3 + f) published_hugr_strict "SerialHugr" (doc_json op_fields md_fields encoder s) = true.
   Proof. exact (published_model_doc_accepted sop md op_fields md_fields op enc ndp md_is_nil). Qed.
@@ -91,7 +105,7 @@ Section C03Schema.
   (* a package of such modules and of extension documents the file's Extension definition accepts validates
      against {"$ref": "#/$defs/Package"} *)
   Theorem C03_model_package_schema_valid : forall (f : nat) (hs : list (hugr op md)) (mods : list (serial sop md)) (exts : list json),
-    4 <= f -> ops_valid published_hugr_strict sop op_fields f ->
+    4 <= f -> ops_valid0 published_hugr_strict sop op_fields f ->
     mapM (to_serial enc ndp md_is_nil) hs = Some mods ->
     (forall e, In e exts -> accepts (3 + f) published_hugr_strict "Extension" e = true) ->
     accepts (6 + f) published_hugr_strict "Package" (pkg_json op_fields md_fields mods exts) = true.
@@ -113,6 +127,11 @@ Theorem C03_published_shapes :
   def_matches published_hugr_strict "Package" shape_Package = true.
 Proof. exact (conj strict_self_equiv (conj strict_SerialHugr_shape strict_Package_shape)). Qed.
 
+(* the published OpType and its 21 alternatives give the same verdict on an object whatever integer `parent` holds *)
+Theorem C03_published_OpType_ignores_parent_index : forall f a b kvs,
+  accepts f published_hugr_strict "OpType" (pnode a kvs) = accepts f published_hugr_strict "OpType" (pnode b kvs).
+Proof. exact (accepts_parent_indep _ _ "OpType" strict_OpType_parent_cert (or_introl eq_refl)). Qed.
+
 (* the monitor's short-circuit validator is the validator of model/Schema.v *)
 Theorem C03_fast_validator_is_the_validator : forall fuel root name d,
   faccepts fuel root name d = accepts fuel root name d.
@@ -129,11 +148,13 @@ Proof. exact (conj ex_ops_valid ex_doc_accepted). Qed.
 Print Assumptions C03_serial_index_sane.
 Print Assumptions C03_serial_port_addressing.
 Print Assumptions C03_serialization_total.
+Print Assumptions C03_json_text_index_sane.
 Print Assumptions C03_index_reuse_refuted.
 Print Assumptions C03_example.
 Print Assumptions C03_model_document_schema_valid.
 Print Assumptions C03_model_package_schema_valid.
 Print Assumptions C03_document_schema_valid_any_file.
 Print Assumptions C03_published_shapes.
+Print Assumptions C03_published_OpType_ignores_parent_index.
 Print Assumptions C03_fast_validator_is_the_validator.
 Print Assumptions C03_schema_example.
